@@ -231,8 +231,9 @@ pub enum PassVerdict {
     Inconclusive { at_pass: usize },
 }
 
-#[derive(Clone, Copy, Debug)]
+#[derive(Clone, Debug)]
 pub struct AsmOptions {
+    pub active_test: Option<String>,
     pub pc: usize,
     pub greedy: bool,
     pub move_macro: bool,
@@ -243,6 +244,7 @@ pub struct AsmOptions {
 impl Default for AsmOptions {
     fn default() -> Self {
         AsmOptions {
+            active_test: None,
             pc: 0x2000,
             greedy: false,
             move_macro: false,
@@ -393,7 +395,13 @@ pub fn codegen_observed(
         }
         true
     })));
+    let mut predefined_constants = std::collections::HashMap::new();
+    if opts.active_test.is_some() {
+        predefined_constants.insert("TEST".to_string(), 1);
+    }
     let options = CodegenOptions {
+        active_test: opts.active_test.as_deref().map(mos_core::parser::IdentifierPath::from),
+        predefined_constants,
         pc: opts.pc.into(),
         enable_greedy_analysis: opts.greedy,
         move_macro_source_map_to_invocation: opts.move_macro,
